@@ -297,8 +297,35 @@ class Models:
         st.items, st.guards = items, [None] * len(items)
         return st
 
-    def iteration_order(self, ex, n, ordered):
+    def key_lt(self, ex, a, b):
+        """z3 Bool: a < b in Ord order (integers, byte strings lexicographically)"""
+        a, b = deref(a), deref(b)
+        if isinstance(a, Sc) and isinstance(b, Sc):
+            return ex.binop('Lt', a, b).t
+        da = a.data if isinstance(a, StrV) else (a.items if isinstance(a, (VecM, ArrayV)) else None)
+        db = b.data if isinstance(b, StrV) else (b.items if isinstance(b, (VecM, ArrayV)) else None)
+        if da is None or db is None:
+            raise Unsupported('ordering of %s and %s' % (type(a).__name__, type(b).__name__))
+        res = z3.BoolVal(len(da) < len(db))
+        for x, y in reversed(list(zip(da, db))):
+            res = z3.If(z3.ULT(x.t, y.t), z3.BoolVal(True), z3.If(x.t == y.t, res, z3.BoolVal(False)))
+        return res
+
+    def sorted_order(self, ex, keys):
+        order = []
+        for i, k in enumerate(keys):
+            pos = len(order)
+            for j, o in enumerate(order):
+                if ex.branch(self.key_lt(ex, k, keys[o])):
+                    pos = j
+                    break
+            order.insert(pos, i)
+        return order
+
+    def iteration_order(self, ex, n, ordered, keys=None):
         """indices in the order a container of n entries is iterated"""
+        if ordered and keys is not None and n > 1:
+            return self.sorted_order(ex, keys)
         if ordered or n <= 1 or self.order_mode == 'insertion':
             return list(range(n))
         perms = list(itertools.permutations(range(n)))
@@ -332,7 +359,7 @@ class Models:
             if isinstance(t, (VecM, ArrayV)):
                 return self.mk_iter([Ptr(v.cell, v.path + (i,)) for i in range(len(t.items))])
             if isinstance(t, MapM):
-                order = self.iteration_order(ex, len(t.entries), t.ordered)
+                order = self.iteration_order(ex, len(t.entries), t.ordered, [e[0] for e in t.entries])
                 return self.mk_iter([Struct([Ptr(Cell(t.entries[i][0])), Ptr(t.entries[i][1])]) for i in order])
             if isinstance(t, SetM):
                 self.set_resolve(ex, t)
@@ -347,7 +374,7 @@ class Models:
         if isinstance(v, (VecM, ArrayV)):
             return self.mk_iter(list(v.items))
         if isinstance(v, MapM):
-            order = self.iteration_order(ex, len(v.entries), v.ordered)
+            order = self.iteration_order(ex, len(v.entries), v.ordered, [e[0] for e in v.entries])
             return self.mk_iter([Struct([v.entries[i][0], v.entries[i][1].v]) for i in order])
         if isinstance(v, SetM):
             self.set_resolve(ex, v)
@@ -357,12 +384,20 @@ class Models:
             ex.force(v)
             return self.mk_iter([v.f[0]] if v.variant in ('Some', 'Ok') else [])
         if isinstance(v, Struct) and v.name in ('Range', 'RangeInclusive') and len(v.f) >= 2 and isinstance(v.f[0], Sc):
-            lim = getattr(ex, 'range_limit', 16)
-            lo = ex.concretize(v.f[0], 0, lim + 1, 'range start')
-            hi = ex.concretize(v.f[1], 0, lim + 1, 'range end')
-            if v.name == 'RangeInclusive':
-                hi += 1
-            return self.mk_iter([mk_int(i, v.f[0].ty) for i in range(lo, hi)])
+            st = {'cur': v.f[0], 'end': v.f[1], 'incl': v.name == 'RangeInclusive', 'n': 0}
+            lim = getattr(ex, 'range_limit', 64)
+
+            def nxt(ex_):
+                more = ex_.binop('Le' if st['incl'] else 'Lt', st['cur'], st['end'])
+                if not ex_.branch(more.t):
+                    return NoneV()
+                st['n'] += 1
+                if st['n'] > lim:
+                    raise BoundExceeded('range longer than %d' % lim)
+                cur = st['cur']
+                st['cur'] = ex_.binop('Add', cur, mk_int(1, cur.ty))
+                return Some(cur)
+            return IterM(nxt, 'range')
         raise Unsupported('into_iter of %s' % (v.name if isinstance(v, Struct) else type(v).__name__))
 
     def drain(self, ex, it, limit=64):
@@ -470,6 +505,9 @@ class Models:
         def _deref(ex, args, info):
             p = args[0]
             t = p.load() if isinstance(p, Ptr) else p
+            while isinstance(t, Ptr) and not t.boxed and info.trait in ('AsRef', 'AsMut', 'Borrow', 'BorrowMut'):
+                p = t                      # &&T: auto-deref through the blanket impls for references
+                t = p.load()
             if isinstance(t, VecM) and info.self_ty_head in ('Vec', 'VecDeque') and info.trait in ('Deref', 'DerefMut', 'AsRef', 'AsMut', 'Borrow'):
                 return SliceRef(p, 0, len(t.items))
             if isinstance(t, ArrayV) and info.trait in ('AsRef', 'AsMut', 'Borrow'):
@@ -614,7 +652,20 @@ class Models:
             e = ex.force(args[0])
             if e.variant in ('Some', 'Ok'):
                 return e.f[0]
-            raise Unsupported('unwrap_or_default')
+            m = re.match(r'^(?:std::\w+::)*(?:Option|Result)::<(.*)>$', info.callee.rsplit('::', 1)[0], re.S)
+            ty = parse.split_top(m.group(1))[0].strip() if m else ''
+            h = head_name(ty)
+            if h == 'str' or h == 'String':
+                return StrV([], StrV.intern_id(b''))
+            if h in INT_W:
+                return mk_int(0, h)
+            c = M.new_container(ty)
+            if c is not None:
+                return c
+            f = ex.prog.resolve('<%s as Default>::default' % last_seg(ty), None)
+            if f is not None:
+                return ex.call_fn(f, [])
+            raise Unsupported('unwrap_or_default for ' + ty)
 
         @M.path('Option', ['is_some', 'is_none'])
         def _is_some(ex, args, info):
@@ -1044,7 +1095,7 @@ class Models:
         @M.path(MAPS, ['values', 'values_mut', 'keys', 'into_values', 'into_keys'])
         def _map_values(ex, args, info):
             t = deref(args[0])
-            order = M.iteration_order(ex, len(t.entries), t.ordered)
+            order = M.iteration_order(ex, len(t.entries), t.ordered, [e[0] for e in t.entries])
             if info.method in ('values', 'values_mut'):
                 return M.mk_iter([Ptr(t.entries[i][1]) for i in order])
             if info.method == 'keys':
@@ -1587,7 +1638,12 @@ class Models:
             return c
         ex.alloc_requests.append((callee, n, ex.site))
         lim = limit if limit is not None else getattr(ex, 'alloc_limit', 8)
-        return ex.concretize(n, 0, lim + 1, 'allocation size')
+        try:
+            return ex.concretize(n, 0, lim + 1, 'allocation size')
+        except BoundExceeded:
+            # larger than anything the bounded input can fill: any such size behaves alike for the readers that follow
+            # (they hit end of input); the request itself stays recorded for the allocation-size obligation
+            return lim + 1
 
     def convert(self, ex, v, target, info):
         """Into/From between model values (mostly identities on our representations)."""
